@@ -78,6 +78,7 @@ def realise(lay, pattern):
         last_switchable = None
         for j, kind in enumerate(inp["chain"]):
             n = "I%d_%d" % (i, j)
+            starved = False
             if kind == "RLoss":
                 a = {"rs": G.sig(rng.uniform(0.0, 0.2))}
             elif kind == "Converter":
@@ -85,7 +86,13 @@ def realise(lay, pattern):
                 a = {"vo": sgn * vnow, "eff": G.sig(rng.uniform(0.7, 0.95), 3), "iis": 1e-5}
                 last_switchable = n
             elif kind == "LinReg":
-                if rng.random() < 0.3:
+                r_ = rng.random()
+                if r_ < 0.12:
+                    # a regulator whose dropout exceeds its input: it is "on" but delivers exactly 0 V - a DEAD input
+                    vd = G.sig(vnow * rng.uniform(1.05, 1.6))
+                    a = {"vo": sgn * G.sig(vd * rng.uniform(1.2, 2.0)), "vdrop": vd, "iis": 2e-6}
+                    starved = True
+                elif r_ < 0.4:
                     # a regulator in DROPOUT (|vi| - vdrop < |vo|): its output follows the input - a live input all the same
                     vd = G.sig(vnow * rng.uniform(0.02, 0.3))
                     a = {"vo": sgn * G.sig(vnow * rng.uniform(0.95, 1.4)), "vdrop": vd, "iis": 2e-6}
@@ -99,6 +106,8 @@ def realise(lay, pattern):
                 last_switchable = n
             comps.append(_c(n, kind, a, [par]))
             par = n
+            if starved:
+                break  # the starved regulator itself is the mux input
         in_names.append(par)
         if not pattern[i]:
             shared = sum(1 for q in lay["inputs"] if q["src"] == inp["src"]) > 1
